@@ -3,11 +3,11 @@
 # Applies seeded/<name>/patch.diff to a scratch worktree of /repo (never to /repo itself), runs the checks against that
 # worktree in a sandbox (nothing is written under /verif), prints one line per check, removes worktree and sandbox.
 name=$1; shift
-cd /verif
+cd ${VERIF_HOME:-/verif}
 wt=$(mktemp -d /tmp/seedwt.XXXXXX); sb=$(mktemp -d /tmp/seedsb.XXXXXX)
 rmdir $wt
 git -C /repo worktree add -q --detach $wt HEAD || exit 2
-git -C $wt apply /verif/seeded/$name/patch.diff || { git -C /repo worktree remove --force $wt; rm -rf $sb; exit 2; }
+git -C $wt apply ${VERIF_HOME:-/verif}/seeded/$name/patch.diff || { git -C /repo worktree remove --force $wt; rm -rf $sb; exit 2; }
 for p in "$@"; do
   out=$(VERIF_REPO=$wt VERIF_SANDBOX=$sb ./check $p --tier ${TIER:-quick} 2>&1); rc=$?
   echo "[$name] $p rc=$rc :: $(echo "$out" | grep -E 'VIOLATION|KNOWN|INFRA' | head -3 | tr '\n' ' ') $(echo "$out" | tail -1)"
